@@ -1,7 +1,7 @@
 \* emission (thorough): nearly coincident target points, H = 5, three jitter classes
 CONSTANTS H = 5  SrcPts = {1, 2, 3, 4}  DstPts = {1, 2, 3, 4}  Profiles = {1, 2, 3, 11, 12}  FuelChoices = {3}  SolveProfiles = {}
           Jitters = {"up", "down", "alt"}  Ops = {"MakeUniform", "MapBack"}  SnapFlags = {}
-          SnapProfiles = {}  MaxLevel = 5
+          SnapProfiles = {}  MoveProfiles = {}  Geoms = {"cold"}  MaxLevel = 5
 INVARIANT EmitState
 INIT Init
 NEXT Next
